@@ -9,12 +9,22 @@
                     iteration of X_Cmp), the Table's robin-hood slot array (because `Table_Cmp` iterates in slot order), the Tree as
                     its iteration sequence.
   * `assignVal`, `copyVal`, `swap` on a store of objects.
+  * element memory (`Cell` = one 64-bit word) and `blit` = memcpy/memmove with an explicit width: every place where a container
+    moves an element it already holds goes through it, with the offsets and widths the translator extracts from the source
+    (CelloGen/Hash.lean: `treeRemMoveSize`, `tableStepTerms`, `tableMoveKeySize`, `arrayStepTerms`, …) evaluated for the key /
+    value / element widths of the container at hand — `Tree_Rem`'s relocation of the in-order neighbour (`treeRelocate`), the
+    slot copies of `Table_Set_Move` / `Table_Rem` / `Table_Rehash` (`copySlot`, `loadSlot`), the memmoves of `Array_Pop_At` /
+    `Array_Push_At` (`arrayPopAt`, `arrayPushAt`). A move that is too narrow leaves the tail of the old element in place, which
+    shows in the dump and in eq / hash.
+  * the Tree as a binary search tree of entries (`Sh`) without colours: `Tree_Set_Fix` / `Tree_Rem_Fix` relink and recolour
+    nodes, they never touch a payload and keep the in-order sequence (checked by the translator; shape and balance are engine
+    `tree`'s, C03). The C10 theorems are stated for every search-tree shape, hence for the shapes the C code reaches.
   Core Lean only.
 -/
 import CelloGen.Hash
 
 namespace Cello.Hash
-open CelloGen.Hash (Step TailStmt Comb)
+open CelloGen.Hash (Step TailStmt Comb SizeTerm)
 
 abbrev Bytes := List UInt8
 
@@ -187,6 +197,95 @@ def scalarCmp (addr : Nat → Bytes) : Scalar → Scalar → Option Int
   | .raw ka a, .raw kb b => if ka = kb then some (bytesCmp a b) else none
   | _, _ => none
 
+/-! ## element memory: 64-bit words; memcpy / memmove with an explicit width -/
+
+/-- sizes in bytes of the plain-struct probe types `P<k>` of the harness -/
+def probeSizes : List Nat := [1, 4, 8, 12, 16, 40, 24]
+def rawSize (k : Nat) : Nat := probeSizes.getD k 0
+
+/-- one 8-byte word of the memory of a container element -/
+inductive Cell where
+  | hdr (val : Bool)            -- a word of the `struct Header` in front of a key (false) / of a value or sequence element (true)
+  | tag (n : Nat)               -- the first word of a Table slot: home slot + 1
+  | int (v : Int64)             -- `struct Int`
+  | flt (bits : UInt64)         -- `struct Float`
+  | str (b : Bytes)             -- `struct String { char* val; }`: the pointer, named by the characters it points to
+  | ptr (box : Bool) (t : Nat)  -- `struct Ref` / `struct Box`
+  | raw (b : Bytes)             -- eight bytes of a plain struct (the last word zero-padded up to the container's rounded size)
+  | zero                        -- a word of zeroed memory (calloc / memset)
+deriving DecidableEq, Repr
+
+def pad8 (b : Bytes) : Bytes := b ++ List.replicate (8 - b.length) 0
+
+/-- the first `n` words of a plain struct -/
+def rawCells : Nat → Bytes → List Cell
+  | 0, _ => []
+  | n + 1, b => .raw (pad8 (b.take 8)) :: rawCells n (b.drop 8)
+
+def wordsOf (size : Nat) : Nat := (size + 7) / 8
+
+/-- the words of the struct of a value -/
+def scalarCells : Scalar → List Cell
+  | .int v => [.int v]
+  | .float b => [.flt b]
+  | .str b => [.str b]
+  | .typ _ => []                -- Type objects are never embedded in a container
+  | .ptr bx t => [.ptr bx t]
+  | .raw _ b => rawCells (wordsOf b.length) b
+
+def cellBytes : Cell → Bytes
+  | .raw b => b
+  | _ => List.replicate 8 0
+
+/-- read a value of the type (and size) of `tmpl` back from its words; zeroed memory reads as the zero value -/
+def scalarOfCells : Scalar → List Cell → Scalar
+  | .int _, [.int v] => .int v
+  | .int _, _ => .int 0
+  | .float _, [.flt b] => .float b
+  | .float _, _ => .float 0
+  | .str _, [.str b] => .str b
+  | .str _, _ => .str []
+  | .typ n, _ => .typ n
+  | .ptr bx _, [.ptr _ t] => .ptr bx t
+  | .ptr bx _, _ => .ptr bx 0
+  | .raw k b, cs => .raw k ((cs.flatMap cellBytes).take b.length)
+
+/-- widths, in words, of the parts of an entry: `sizeof(struct Header)`, key, value (or sequence element) -/
+structure Layout where
+  hw : Nat
+  kw : Nat
+  vw : Nat
+deriving DecidableEq, Repr
+
+def termWords (L : Layout) : SizeTerm → Nat
+  | .hdr => L.hw
+  | .u64 => 1
+  | .ksize => L.kw
+  | .vsize => L.vw
+  | .tsize => L.vw
+
+/-- value of a size / offset expression of the source for a container with layout `L` -/
+def evalSize (L : Layout) (ts : List SizeTerm) : Nat := ts.foldl (fun n t => n + termWords L t) 0
+
+/-- `memcpy(dst + dstOff, src + srcOff, n)` / `memmove` (the source is read before the destination is written) -/
+def blit (dstOff srcOff n : Nat) (src dst : List Cell) : List Cell :=
+  dst.take dstOff ++ ((src.drop srcOff).take n ++ dst.drop (dstOff + n))
+
+/-- words of a value of each type as an element of a container (`Table_Size_Round` / `Array_Size_Round` round up to words;
+    `Tree_New` does not round: Tree key / value types are kept to multiples of 8 bytes, KF-C19-tree-misaligned-header) -/
+def tyWords : Ty → Nat
+  | .typ => 0
+  | .raw k => wordsOf (rawSize k)
+  | _ => 1
+
+/-- `sizeof(struct Header) / 8` in the build the harness uses (type, alloc); no theorem depends on the value -/
+def hdrWords : Nat := 2
+
+def layoutOf (kt vt : Ty) : Layout := ⟨hdrWords, tyWords kt, tyWords vt⟩
+
+/-- executable form of "the value occupies `w` words" (the hypothesis of the move theorems; checked by the driver) -/
+def sizedB (w : Nat) (s : Scalar) : Bool := (scalarCells s).length == w
+
 /-! ## container hashes and comparisons (polymorphic in the element type) -/
 
 def combine : Comb → UInt64 → UInt64 → UInt64
@@ -329,6 +428,126 @@ def tableOfEntries (addr : Nat → Bytes) (es : List (Scalar × Scalar)) : Table
   if n = 0 then Table.empty
   else es.foldl (fun acc e => setMove addr acc e.1 e.2) ⟨n, Array.replicate n none, 0⟩
 
+/-! ### the same Table code with its slot copies spelt out: every `memcpy` of a slot moves `Table_Step(t)` words -/
+
+def tableStepW (L : Layout) : Nat := evalSize L CelloGen.Hash.tableStepTerms
+
+/-- the words of slot memory: home + 1, key header, key, value header, value; an empty slot is zeroed -/
+def slotCells (L : Layout) : Option Slot → List Cell
+  | none => List.replicate (tableStepW L) .zero
+  | some s => .tag s.stored ::
+      (List.replicate L.hw (.hdr false) ++ scalarCells s.k ++ (List.replicate L.hw (.hdr true) ++ scalarCells s.v))
+
+/-- read a slot back (`Table_Key_Hash` = 0: empty; `Table_Key`, `Table_Val` at their offsets); `tmpl` gives the types -/
+def slotOfCells (L : Layout) (tmpl : Slot) (cs : List Cell) : Option Slot :=
+  match cs with
+  | .tag n :: _ =>
+    if n = 0 then none
+    else some ⟨n, scalarOfCells tmpl.k ((cs.drop (evalSize L CelloGen.Hash.tableKeyOff)).take L.kw),
+                  scalarOfCells tmpl.v ((cs.drop (evalSize L CelloGen.Hash.tableValOff)).take L.vw)⟩
+  | _ => none
+
+/-- `memcpy(dst, src, Table_Step(t))` of the slot `src` over the slot memory `dst` -/
+def copySlot (L : Layout) (src : Slot) (dst : Option Slot) : Option Slot :=
+  slotOfCells L src (blit 0 0 (tableStepW L) (slotCells L (some src)) (slotCells L dst))
+
+/-- `sspace0` as `Table_Set_Move(t, key, val, true)` fills it from the old slot `Table_Rehash` points into: zeroed, the new
+    home + 1, then `memcpy(sspace0 + …, key - sizeof(struct Header), ksize + sizeof(struct Header))` and the same for the value -/
+def loadSlot (L : Layout) (home1 : Nat) (old : Slot) : Option Slot :=
+  let oc := slotCells L (some old)
+  let s0 := Cell.tag home1 :: List.replicate (tableStepW L - 1) .zero
+  let s1 := blit (evalSize L CelloGen.Hash.tableMoveKeyDst) (evalSize L CelloGen.Hash.tableRehashKeyOff - L.hw)
+              (evalSize L CelloGen.Hash.tableMoveKeySize) oc s0
+  let s2 := blit (evalSize L CelloGen.Hash.tableMoveValDst) (evalSize L CelloGen.Hash.tableRehashValOff - L.hw)
+              (evalSize L CelloGen.Hash.tableMoveValSize) oc s1
+  slotOfCells L old s2
+
+/-- the loop of `Table_Set_Move`: `cur` = `sspace0`, `sp1` = `sspace1` (zeroed on entry, stale afterwards). The `none` arms
+    (a copied slot reads back as empty) are not reached when the widths cover the slot (`setMoveLoopW_eq`). -/
+def setMoveLoopW (addr : Nat → Bytes) (L : Layout) : Nat → Table → Slot → Option Slot → Nat → Nat → Table
+  | 0, t, _, _, _, _ => t
+  | fuel + 1, t, cur, sp1, i, j =>
+    match t.slots.getD i none with
+    | none => { t with slots := t.slots.setIfInBounds i (copySlot L cur none), nitems := t.nitems + 1 }
+    | some s =>
+      if keyEq addr s.k cur.k then { t with slots := t.slots.setIfInBounds i (copySlot L cur (some s)) }
+      else
+        let p := probe t.nslots i s.stored
+        if j > p then
+          -- memcpy(sspace1, slot, step); memcpy(slot, sspace0, step); memcpy(sspace0, sspace1, step)
+          match copySlot L s sp1 with
+          | none => t
+          | some s1 =>
+            let t' := { t with slots := t.slots.setIfInBounds i (copySlot L cur (some s)) }
+            match copySlot L s1 (some cur) with
+            | none => t'
+            | some cur' => setMoveLoopW addr L fuel t' cur' (some s1) ((i + 1) % t.nslots) (p + 1)
+        else
+          setMoveLoopW addr L fuel t cur sp1 ((i + 1) % t.nslots) (j + 1)
+
+/-- `Table_Set_Move(t, key, val, false)`: `sspace0` gets fresh headers and the assigned key and value -/
+def setMoveW (addr : Nat → Bytes) (L : Layout) (t : Table) (k v : Scalar) : Table :=
+  let i := (scalarHash addr k).toNat % t.nslots
+  setMoveLoopW addr L (2 * t.nslots + 2) t ⟨i + 1, k, v⟩ none i 0
+
+/-- `Table_Set_Move(t, key, val, true)` with `key`, `val` pointing into the old slot `old` -/
+def setMoveFromW (addr : Nat → Bytes) (L : Layout) (t : Table) (old : Slot) : Table :=
+  let i := (scalarHash addr old.k).toNat % t.nslots
+  match loadSlot L (i + 1) old with
+  | none => t
+  | some cur => setMoveLoopW addr L (2 * t.nslots + 2) t cur none i 0
+
+/-- `Table_Rehash` -/
+def rehashW (addr : Nat → Bytes) (L : Layout) (t : Table) (newSize : Nat) : Table :=
+  let fresh : Table := ⟨newSize, Array.replicate newSize none, 0⟩
+  t.entriesInSlotOrder.foldl (fun acc s => setMoveFromW addr L acc s) fresh
+
+/-- `Table_Set` -/
+def tableSetW (addr : Nat → Bytes) (L : Layout) (t : Table) (k v : Scalar) : Table :=
+  let t := if t.nslots = 0 then rehashW addr L t (idealSize 0) else t
+  let t := setMoveW addr L t k v
+  let n := idealSize t.nitems
+  if n > t.nslots then rehashW addr L t n else t
+
+/-- the back-shift loop of `Table_Rem`: `memcpy(slot i, slot ni, step); memset(slot ni, 0, step)` -/
+def backShiftW (L : Layout) : Nat → Table → Nat → Table
+  | 0, t, _ => t
+  | fuel + 1, t, i =>
+    let ni := (i + 1) % t.nslots
+    match t.slots.getD ni none with
+    | some s =>
+      if probe t.nslots ni s.stored > 0 then
+        backShiftW L fuel { t with slots := (t.slots.setIfInBounds i (copySlot L s none)).setIfInBounds ni none } ni
+      else t
+    | none => t
+
+def remLoopW (addr : Nat → Bytes) (L : Layout) (key : Scalar) : Nat → Table → Nat → Nat → Option Table
+  | 0, _, _, _ => none
+  | fuel + 1, t, i, j =>
+    match t.slots.getD i none with
+    | none => none
+    | some s =>
+      if j > probe t.nslots i s.stored then none
+      else if keyEq addr s.k key then
+        let t := backShiftW L t.nslots { t with slots := t.slots.setIfInBounds i none } i
+        let t := { t with nitems := t.nitems - 1 }
+        let n := idealSize t.nitems
+        some (if n < t.nslots then rehashW addr L t n else t)
+      else remLoopW addr L key fuel t ((i + 1) % t.nslots) (j + 1)
+
+/-- `Table_Rem`: `none` = KeyError -/
+def tableRemW (addr : Nat → Bytes) (L : Layout) (t : Table) (key : Scalar) : Option Table :=
+  if t.nslots = 0 then none
+  else remLoopW addr L key (t.nslots + 1) t ((scalarHash addr key).toNat % t.nslots) 0
+
+/-- `Table_New` with pairs / `Table_Assign` -/
+def tableOfEntriesW (addr : Nat → Bytes) (L : Layout) (es : List (Scalar × Scalar)) : Table :=
+  let n := idealSize es.length
+  if n = 0 then Table.empty
+  else es.foldl (fun acc e => setMoveW addr L acc e.1 e.2) ⟨n, Array.replicate n none, 0⟩
+
+def slotSizedB (L : Layout) (s : Slot) : Bool := s.stored != 0 && sizedB L.kw s.k && sizedB L.vw s.v
+
 def Table.entries (t : Table) : List (Scalar × Scalar) := t.entriesInSlotOrder.map fun s => (s.k, s.v)
 
 /-- executable form of the Table invariant "no two entries have eq keys" (checked by the driver on the Table states the op
@@ -358,8 +577,126 @@ def treeSeqB (addr : Nat → Bytes) : List (Scalar × Scalar) → Bool
   | [] => true
   | e :: es => es.all (fun f => match scalarCmp addr e.1 f.1 with | some c => decide (0 < c) | none => false) && treeSeqB addr es
 
+/-- the same invariant checked on neighbours only (linear; `treeSeqAdjB_sound`: the comparison is transitive) -/
+def treeSeqAdjB (addr : Nat → Bytes) : List (Scalar × Scalar) → Bool
+  | e :: f :: rest =>
+    (match scalarCmp addr e.1 f.1 with | some c => decide (0 < c) | none => false) && treeSeqAdjB addr (f :: rest)
+  | _ => true
+
 def treeOfEntries (addr : Nat → Bytes) (es : List (Scalar × Scalar)) : List (Scalar × Scalar) :=
   es.foldl (fun acc e => treeSet addr acc e.1 e.2) []
+
+/-! ### the Tree as a binary search tree of entries: `Tree_Set`, `Tree_Rem` with the relocation of the in-order neighbour
+
+  Nodes carry no colour: `Tree_Set_Fix`, `Tree_Rem_Fix`, the rotations and `Tree_Replace` relink and recolour, they move no
+  payload and keep the in-order sequence, so they are invisible to `hash`, `cmp`, `assign` and iteration. Larger keys are on the
+  left. -/
+
+inductive Sh where
+  | nil
+  | node (l : Sh) (e : Scalar × Scalar) (r : Sh)
+deriving Repr
+
+/-- in-order sequence left → right: what `Tree_Iter_Init` / `Tree_Iter_Next` visit -/
+def Sh.toList : Sh → List (Scalar × Scalar)
+  | .nil => []
+  | .node l e r => l.toList ++ e :: r.toList
+
+def Sh.size : Sh → Nat
+  | .nil => 0
+  | .node l _ r => l.size + 1 + r.size
+
+/-- the payload of a node behind its three link words (`Tree_Alloc`): key header, key, value header, value -/
+def treeNodeCells (L : Layout) (e : Scalar × Scalar) : List Cell :=
+  List.replicate L.hw (.hdr false) ++ scalarCells e.1 ++ (List.replicate L.hw (.hdr true) ++ scalarCells e.2)
+
+/-- read `Tree_Key(m, node)`, `Tree_Val(m, node)` -/
+def treeEntryOfCells (L : Layout) (tmpl : Scalar × Scalar) (cs : List Cell) : Scalar × Scalar :=
+  (scalarOfCells tmpl.1 ((cs.drop (evalSize L CelloGen.Hash.treeKeyOff)).take L.kw),
+   scalarOfCells tmpl.2 ((cs.drop (evalSize L CelloGen.Hash.treeValOff)).take L.vw))
+
+/-- `memcpy((char*)node + 3 * sizeof(var), (char*)pred + 3 * sizeof(var), …)` of `Tree_Rem`: what the node holds afterwards -/
+def treeRelocate (L : Layout) (pred node : Scalar × Scalar) : Scalar × Scalar :=
+  treeEntryOfCells L pred
+    (blit 0 0 (evalSize L CelloGen.Hash.treeRemMoveSize) (treeNodeCells L pred) (treeNodeCells L node))
+
+/-- `Tree_Set`: `c = cmp(Tree_Key(node), key)`; 0: assign key and value in place; `c < 0`: left; else right -/
+def shSet (addr : Nat → Bytes) : Sh → Scalar → Scalar → Sh
+  | .nil, k, v => .node .nil (k, v) .nil
+  | .node l e r, k, v =>
+    match scalarCmp addr e.1 k with
+    | some c => if c = 0 then .node l (k, v) r else if c < 0 then .node (shSet addr l k v) e r else .node l e (shSet addr r k v)
+    | none => .node l e r
+
+/-- `Tree_Maximum` from a non-NULL node: the entry at the end of the right links, and the subtree once that node (which has no
+    right child) is replaced by its left child -/
+def shMax : Sh → Option ((Scalar × Scalar) × Sh)
+  | .nil => none
+  | .node l e r =>
+    match shMax r with
+    | none => some (e, l)
+    | some (m, r') => some (m, .node l e r')
+
+/-- `Tree_Rem` once the node is found: with two children the in-order neighbour (the maximum of the left subtree) is copied over
+    the node and unlinked instead; otherwise `chld = right is NULL ? left : right` takes the node's place -/
+def shRemHere (L : Layout) (l : Sh) (e : Scalar × Scalar) (r : Sh) : Sh :=
+  match l, r with
+  | .node .., .node .. =>
+    match shMax l with
+    | some (p, l') => .node l' (treeRelocate L p e) r
+    | none => r
+  | l, .nil => l
+  | .nil, r => r
+
+/-- `Tree_Rem`: `none` = KeyError -/
+def shRem (addr : Nat → Bytes) (L : Layout) : Sh → Scalar → Option Sh
+  | .nil, _ => none
+  | .node l e r, k =>
+    match scalarCmp addr e.1 k with
+    | some c =>
+      if c = 0 then some (shRemHere L l e r)
+      else if c < 0 then (shRem addr L l k).map (fun l' => .node l' e r)
+      else (shRem addr L r k).map (fun r' => .node l e r')
+    | none => none
+
+/-- `Tree_New` with pairs / `Tree_Assign`: `Tree_Set` for each pair in order -/
+def shOfEntries (addr : Nat → Bytes) (es : List (Scalar × Scalar)) : Sh :=
+  es.foldl (fun acc e => shSet addr acc e.1 e.2) .nil
+
+def entrySizedB (L : Layout) (e : Scalar × Scalar) : Bool := sizedB L.kw e.1 && sizedB L.vw e.2
+
+/-! ## Array: the memmoves of `Array_Pop_At` / `Array_Push_At` over the element memory -/
+
+def arrayStepW (L : Layout) : Nat := evalSize L CelloGen.Hash.arrayStepTerms
+
+/-- one element slot: header, then the value (`Array_Item` = slot + `arrayItemOff`) -/
+def elemCells (L : Layout) (s : Scalar) : List Cell := List.replicate L.hw (.hdr true) ++ scalarCells s
+
+def elemsCells (L : Layout) (xs : List Scalar) : List Cell := xs.flatMap (elemCells L)
+
+/-- read `tmpl.length` consecutive element slots (`tmpl` gives the types) -/
+def elemsOfCells (L : Layout) : List Scalar → List Cell → List Scalar
+  | [], _ => []
+  | t :: ts, cs =>
+    scalarOfCells t ((cs.drop (evalSize L CelloGen.Hash.arrayItemOff)).take L.vw) :: elemsOfCells L ts (cs.drop (arrayStepW L))
+
+/-- `Array_Pop_At(a, i)` for `i < nitems`: `memmove(data + step * (i + 0), data + step * (i + 1), step * ((nitems - 1) - i))`,
+    then `nitems--` -/
+def arrayPopAt (L : Layout) (items : List Scalar) (i : Nat) : List Scalar :=
+  let step := arrayStepW L
+  let mem := elemsCells L items
+  let mem' := blit (step * (i + CelloGen.Hash.arrayPopAtDst)) (step * (i + CelloGen.Hash.arrayPopAtSrc))
+                (step * ((items.length - 1) - i)) mem mem
+  elemsOfCells L (items.take i ++ items.drop (i + 1)) mem'
+
+/-- `Array_Push_At(a, x, i)` for `i ≤ nitems`: `nitems++`, reserve (the new last slot: zeroed here), `memmove(data + step *
+    (i + 1), data + step * (i + 0), step * ((nitems - 1) - i))`, then slot `i` is initialised and assigned `x` -/
+def arrayPushAt (L : Layout) (items : List Scalar) (i : Nat) (x : Scalar) : List Scalar :=
+  let step := arrayStepW L
+  let mem := elemsCells L items ++ List.replicate step .zero
+  let mem' := blit (step * (i + CelloGen.Hash.arrayPushAtDst)) (step * (i + CelloGen.Hash.arrayPushAtSrc))
+                (step * (((items.length + 1) - 1) - i)) mem mem
+  elemsOfCells L (items.take i) mem' ++ x :: elemsOfCells L (items.drop i) (mem'.drop (step * (i + 1)))
 
 /-! ## objects -/
 
@@ -376,7 +713,7 @@ inductive Val where
   | seq (kind : SeqKind) (ety : Ty) (items : List Scalar)
   | tuple (items : List Nat)                          -- the objects pointed to
   | table (kt vt : Ty) (t : Table)
-  | tree (kt vt : Ty) (entries : List (Scalar × Scalar))
+  | tree (kt vt : Ty) (t : Sh)
 deriving Repr
 
 structure Obj where
@@ -402,7 +739,7 @@ def seqItems (st : Store) : Val → Option (List Scalar)
 
 def mapEntries : Val → Option (List (Scalar × Scalar))
   | .table _ _ t => some t.entries
-  | .tree _ _ es => some es
+  | .tree _ _ t => some t.toList
   | _ => none
 
 /-- `hash(obj)` -/
@@ -412,7 +749,7 @@ def valHash (addr : Nat → Bytes) (st : Store) : Val → UInt64
   | .seq .list _ items => seqHash CelloGen.Hash.listComb (scalarHash addr) items
   | .tuple ids => seqHash CelloGen.Hash.tupleComb (scalarHash addr) ((ids.mapM st.scalar).getD [])
   | .table _ _ t => mapHash CelloGen.Hash.tableComb (scalarHash addr) (scalarHash addr) t.entries
-  | .tree _ _ es => mapHash CelloGen.Hash.treeComb (scalarHash addr) (scalarHash addr) es
+  | .tree _ _ t => mapHash CelloGen.Hash.treeComb (scalarHash addr) (scalarHash addr) t.toList
 
 /-- `cmp(a, b)` (sign); `none` = TypeError / not exercised -/
 def valCmp (addr : Nat → Bytes) (st : Store) (a b : Val) : Option Int :=
@@ -437,8 +774,9 @@ def Exc.name : Exc → String
 /-- `assign(self, obj)` for the pairs this engine exercises; `self` has allocation class `cls`.
     Scalars: Int/Float copy the number, String reallocates (refused for a stack/static String), plain structs `memcpy`,
     Ref/Box copy the pointer, Type refuses. Array/List: clear, take the source's element type, copy the items. Tuple: copy the
-    pointers (refused for a stack Tuple). Table: clear, `nslots = ideal(len)`, insert in the source's iteration order.
-    Tree: clear, insert in the source's iteration order. -/
+    pointers (refused for a stack Tuple). Table: clear, `nslots = ideal(len)`, insert in the source's iteration order (with the
+    slot copies of `Table_Set_Move` at the widths of the source's key and value types). Tree: clear, insert in the source's
+    iteration order. -/
 def assignVal (addr : Nat → Bytes) (st : Store) (cls : Cls) (self src : Val) : Except Exc Val :=
   match self, src with
   | .sc (.int _), .sc (.int v) => .ok (.sc (.int v))
@@ -449,10 +787,10 @@ def assignVal (addr : Nat → Bytes) (st : Store) (cls : Cls) (self src : Val) :
   | .sc (.raw k _), .sc (.raw k' v) => if k = k' then .ok (.sc (.raw k v)) else .error .typeError
   | .seq kind _ _, .seq _ ety items => .ok (.seq kind ety items)
   | .tuple _, .tuple ids => if cls = .stack then .error .valueError else .ok (.tuple ids)
-  | .table _ _ _, .table kt vt t => .ok (.table kt vt (tableOfEntries addr t.entries))
-  | .table _ _ _, .tree kt vt es => .ok (.table kt vt (tableOfEntries addr es))
-  | .tree _ _ _, .tree kt vt es => .ok (.tree kt vt (treeOfEntries addr es))
-  | .tree _ _ _, .table kt vt t => .ok (.tree kt vt (treeOfEntries addr t.entries))
+  | .table _ _ _, .table kt vt t => .ok (.table kt vt (tableOfEntriesW addr (layoutOf kt vt) t.entries))
+  | .table _ _ _, .tree kt vt s => .ok (.table kt vt (tableOfEntriesW addr (layoutOf kt vt) s.toList))
+  | .tree _ _ _, .tree kt vt s => .ok (.tree kt vt (shOfEntries addr s.toList))
+  | .tree _ _ _, .table kt vt t => .ok (.tree kt vt (shOfEntries addr t.entries))
   | _, _ => let _ := st; .error .typeError
 
 /-- the zero-initialised object `alloc(type_of(x))` returns -/
@@ -466,7 +804,7 @@ def blankOf : Val → Val
   | .seq kind ety _ => .seq kind ety []
   | .tuple _ => .tuple []
   | .table kt vt _ => .table kt vt Table.empty
-  | .tree kt vt _ => .tree kt vt []
+  | .tree kt vt _ => .tree kt vt .nil
 
 /-- `copy(x)` = `assign(alloc(type_of(x)), x)` (Type overrides Copy and refuses) -/
 def copyVal (addr : Nat → Bytes) (st : Store) (x : Val) : Except Exc Val :=
